@@ -146,12 +146,14 @@ class CallFrame(MemorySegment):
         # also for debugging purposes
         self.ret_addr = ret_addr
 
-        # the depth of the operand stack when the statement currently
-        # executing in this frame was started (only known when the
-        # module has debug info). when a run-time error is handed to
-        # an ON ERROR handler, the partial results of the failed
-        # statement above this depth are dropped.
-        self.stmt_stack_depth = None
+        # between statements the operand stack holds, on top of what
+        # was there when the frame was created, only the return
+        # addresses of the GOSUBs active in this frame. when a
+        # run-time error is handed to an ON ERROR handler, anything
+        # above that are partial results of the failed statement and
+        # is dropped. (this needs no debug info.)
+        self.base_stack_depth = None
+        self.gosub_depth = 0
 
     def set_temp_reference(self, idx, value):
         # get a non reference value, create a temporary cell for it,
@@ -235,15 +237,6 @@ class QvmCpu:
         self.trap_target = None
         self.error_handler_active = False
         self.trapped_addr = 0
-
-        # addresses of the first instruction of each statement (empty
-        # without debug info)
-        self.stmt_starts = set()
-        if self.module.debug_info is not None:
-            self.stmt_starts = set(
-                stmt.start_offset
-                for stmt in self.module.debug_info.stmts
-            )
 
         self.received_keyboard_interrupt = False
         signal.signal(signal.SIGINT, self.signal_handler)
@@ -340,13 +333,6 @@ class QvmCpu:
         self.prev_pc = self.pc
         instr_addr = self.pc
         instr, operands, size = self.get_current_instruction()
-        if instr_addr in self.stmt_starts and \
-           self.cur_frame is not None and \
-           not (instr is not None and instr.op == 'frame'):
-            # (the statement of a SUB or FUNCTION starts at its frame
-            # instruction, which still runs in the caller's frame, in
-            # the middle of the calling statement)
-            self.cur_frame.stmt_stack_depth = len(self.stack)
         self.pc += size
         if instr is None:
             return
@@ -452,9 +438,9 @@ class QvmCpu:
             # the error is going to be handled by the program: drop
             # what the failed statement left on the operand stack, so
             # that execution continues as if it had not been started
-            if self.cur_frame is not None and \
-               self.cur_frame.stmt_stack_depth is not None:
-                del self.stack[self.cur_frame.stmt_stack_depth:]
+            frame = self.cur_frame
+            if frame is not None and frame.base_stack_depth is not None:
+                del self.stack[frame.base_stack_depth + frame.gosub_depth:]
 
             if self.trap_target == 'next':
                 try:
@@ -704,6 +690,17 @@ class QvmCpu:
         self.push(CellType.LONG, self.pc)
         self.pc = target
 
+        # a call to anything but the frame instruction of a SUB or
+        # FUNCTION is a GOSUB: its return address stays on the operand
+        # stack of the current frame until RETURN
+        code = self.module.code
+        instr = None
+        if 0 <= target < len(code):
+            instr = op_code_to_instr.get(code[target])
+        if self.cur_frame is not None and \
+           not (instr is not None and instr.op == 'frame'):
+            self.cur_frame.gosub_depth += 1
+
     def _exec_chr(self):
         char_code = self.pop(CellType.INTEGER)
         if char_code < 0 or char_code > 255:
@@ -896,6 +893,8 @@ class QvmCpu:
         # push back return address
         self.push(CellType.LONG, ret_addr)
 
+        frame.base_stack_depth = len(self.stack)
+
     def _exec_ge(self):
         value = self.pop()
 
@@ -946,8 +945,11 @@ class QvmCpu:
         self.push(a.type, result)
 
     def _exec_ijmp(self):
+        # RETURN
         target = self.pop(CellType.LONG)
         self.pc = target
+        if self.cur_frame is not None:
+            self.cur_frame.gosub_depth -= 1
 
     def _exec_imp(self):
         self._bitwise(lambda a, b: (~a | b))
@@ -1178,7 +1180,10 @@ class QvmCpu:
         self._bitwise(lambda a, b: a | b)
 
     def _exec_pop(self):
+        # RETURN <label> throws away the return address of the GOSUB
         self.pop()
+        if self.cur_frame is not None:
+            self.cur_frame.gosub_depth -= 1
 
     def _exec_push_string(self, value):
         self.push(CellType.STRING, value)
